@@ -92,15 +92,40 @@ theorem length_popInstances_ge (ss : List Stmt) (cs : List Cls) : cs.length ≤ 
     | assoc _ => exact ih cs
     | uniq _ _ _ => exact ih cs
 
+theorem attrSum_insertStep_ge (cs : List Cls) (k : String) (ns : Option (List String)) (vs : List Val) :
+    attrSum cs ≤ attrSum (insertStep cs k ns vs) := by
+  unfold insertStep
+  by_cases h : hasKind cs k
+  · simp only [h, if_true]
+    cases findCls cs k with
+    | none => exact Nat.le_refl _
+    | some c => simp only; rw [attrSum_addRow]; exact Nat.le_refl _
+  · simp only [h, Bool.false_eq_true, if_false]
+    cases findCls (cs ++ [⟨k, inferAttrs ns vs, [], []⟩]) k with
+    | none => simp only; rw [attrSum_append]; omega
+    | some c => simp only; rw [attrSum_addRow, attrSum_append]; omega
+
+theorem attrSum_popInstances_ge (ss : List Stmt) (cs : List Cls) : attrSum cs ≤ attrSum (popInstances ss cs) := by
+  unfold popInstances
+  induction ss generalizing cs with
+  | nil => exact Nat.le_refl _
+  | cons s ss ih =>
+    simp only [List.foldl_cons]
+    cases s with
+    | insert k ns vs => exact Nat.le_trans (attrSum_insertStep_ge cs k ns vs) (ih _)
+    | cls _ _ => exact ih cs
+    | assoc _ => exact ih cs
+    | uniq _ _ _ => exact ih cs
+
 /-- the loaded metamodel gives every read more fuel than the depth the guards speak of -/
 theorem fuelOf_loaded_ge (ss : List Stmt) (order : List (String × List Val)) :
-    (popClasses ss).length + 1 ≤ fuelOf (loaded ss order) := by
-  have h1 := fuelOf_ge (loaded ss order)
-  have h2 : (popClasses ss).length ≤ (loaded ss order).classes.length := by
+    readBound ss + 1 ≤ fuelOf (loaded ss order) := by
+  have h1 := attrSum_lt_fuelOf (loaded ss order)
+  have h2 : readBound ss ≤ attrSum (loaded ss order).classes := by
     unfold loaded buildCore
     simp only
-    refine Nat.le_trans ?_ (length_popInstances_ge _ _)
-    rw [length_popUniques, popClasses_append, popClasses_inserts, List.append_nil]
+    refine Nat.le_trans ?_ (attrSum_popInstances_ge _ _)
+    rw [attrSum_popUniques, popClasses_append, popClasses_inserts, List.append_nil]
     exact Nat.le_refl _
   omega
 
@@ -120,7 +145,7 @@ theorem readVal_spec (k : String) (i : Nat) (r : Row) (hr : (rawRows ss order k)
         readVal (loaded ss order) k i x = r.get x) := by
   have hF := fuelOf_loaded_ge ss order
   obtain ⟨f, hf⟩ : ∃ f, fuelOf (loaded ss order) = f + 1 := ⟨fuelOf (loaded ss order) - 1, by omega⟩
-  have hDf : (popClasses ss).length ≤ f := by omega
+  have hDf : readBound ss ≤ f := by omega
   have hi : i < (rawRows ss order k).length := (List.getElem?_eq_some_iff.mp hr).1
   obtain ⟨v0, hv0⟩ := Option.isSome_iff_exists.mp (g.readsTerminate k i x hi)
   have hv : readAttr (loaded ss order) (f + 1) k i x = some v0 :=
@@ -374,7 +399,7 @@ theorem matches_read (a : AssocStmt) (ha : a ∈ popAssocs ss) (i j : Nat) (s t 
     -- the referred row's identifying value can be read back
     have hres := g.resolved a ha i j s t hs ht hm p.2 hp2
     have hF := fuelOf_loaded_ge ss order
-    have hresF := readAttr_mono (loaded ss order) (show (popClasses ss).length ≤ fuelOf (loaded ss order) by omega)
+    have hresF := readAttr_mono (loaded ss order) (show readBound ss ≤ fuelOf (loaded ss order) by omega)
       a.tgtKind j p.2 _ hres
     have hw : readVal (loaded ss order) a.tgtKind j p.2 = t.get p.2 := by
       unfold readVal; rw [hresF]; rfl
@@ -603,7 +628,7 @@ theorem apiGuards_readOrder : ApiGuards ss (readOrder ss order) := by
     simp only [rawRow, readArgs]
     rw [get_mkRow_map, if_pos (tgtKeys_declared ss g.accepted a ha tk htk)]
     have hF := fuelOf_loaded_ge ss order
-    have hresF := readAttr_mono (loaded ss order) (show (popClasses ss).length ≤ fuelOf (loaded ss order) by omega)
+    have hresF := readAttr_mono (loaded ss order) (show readBound ss ≤ fuelOf (loaded ss order) by omega)
       a.tgtKind j tk _ hres
     unfold readVal
     rw [hresF]
